@@ -24,27 +24,33 @@ claim(
 claim(
     "C06",
     "typestate on call-graph cycles (visited-set guard / re-entrancy flag pairing on the CFG), exception-flow analysis "
-    "(may-raise summaries over the call graph, hierarchy-aware handlers) for alias dereference sites, store-ordering dominance",
+    "(may-raise summaries over the call graph, hierarchy-aware handlers) for alias dereference sites, store-ordering dominance; "
+    "bounded-exhaustive abstract evaluation of griffe's own code (the checker's evaluator interprets the ASTs of the current source on an "
+    "enumerated finite domain): Alias.resolve_target / final_target on every alias graph over three names (four in the thorough tier)",
     "Structural reasons behind C06 decided on every path: each recursion that walks the import/alias/inheritance graph is cut by a "
     "membership test + insertion on the same key and collection (or the re-entrancy flag, reset in a finally); the resolved target is "
     "stored only after the nested chain resolved; only the two alias error types are raised; every dereference of a possibly-alias "
     "member in loader/merger/set_member is guarded, de-aliased, or handled for both errors; the fixpoint loop frame is intact. "
-    "Termination on all graphs and idempotence of a second resolve_aliases() are not decided as such.",
+    "Decided on every graph of real objects, imports of each other / of themselves / of something missing and aliases created already "
+    "linked (as wildcard expansion does), under every order of resolve_target() calls (610 histories quick, about 17000 thorough): only "
+    "the two alias errors are raised, a call that returns leaves the whole chain resolved, a call that raises leaves the alias unresolved, "
+    "a chain that reaches an object resolves, a second pass changes nothing, evaluation stays within step and depth budgets. Graphs over "
+    "more names and several packages loaded in different orders are not decided.",
     TB + "; tabled dereference exceptions each carry a reason in sa/rules/C06.py",
 )
 claim(
     "C16",
     "bounded-exhaustive abstract evaluation of griffe's own code (the checker's evaluator interprets the ASTs of the current source on "
-    'an enumerated finite domain): every operation sequence up to the bound (16 operations: set / delete by name, dotted path, tuple '
+    'an enumerated finite domain): every operation sequence up to the bound (19 operations: set / delete by name, dotted path, tuple '
     'and item syntax, with objects, aliases, dangling and self-targeting aliases, alias resolution) on a universe built with the '
     "models' own constructors, against a dictionary model; effect ownership of members stores; store/parent pairing, alias registration "
     'and retargeting typestate on the CFG',
     'Decided after every history of up to 2 operations (3 in the thorough tier, 4368 histories): no operation raises except KeyError '
     "for a key the model lacks, every member's parent is its container, dotted / tuple / chained lookups return the model's object, "
     'deleted members are gone, aliases registered on a replaced object follow the replacement, every resolved alias is listed by its '
-    'target under its current path, no alias targets itself. Plus on every path: members stores only in the mixins, parent / collection '
+    'target (at the end of a chain of aliases too) under its current path, no alias targets itself; a module replaced by its stubs counterpart (either order, in a collection or a package) keeps the aliases registered on it. Plus on every path: members stores only in the mixins, parent / collection '
     'linking after each store, self-target test before the target store. Not decided: longer histories, random ones.',
-    TB + '; the universe: a collection, two modules, a class, a function, an attribute, two aliases',
+    TB + '; the universe: a collection, two modules, a class, a function, an attribute, two aliases and an alias of an alias',
 )
 claim(
     "C10",
@@ -66,7 +72,7 @@ claim(
     'ones, classes, plain / annotated / chained assignments, the four import forms, properties, instance attributes set in __init__) in '
     'every block context (if/else, TYPE_CHECKING guards in both spellings, negated and compound conditions, try/except/else/finally, '
     'for, with, nested combinations) at module and class level, and every ordered pair of definitions of one name with the second one '
-    'in a plain or conditional position. For each: one member per bound name, kind of the surviving binding under the tie-break, '
+    'in a plain or conditional position, and sequences of definitions of the same kind. For each: one member per bound name, kind of the surviving binding under the tie-break, '
     'parent, line span (decorators included) whose Object.lines slice parses back to the definition, decorators and their spans, '
     'docstring text and span, attribute docstrings, runtime flag, and the announcement trace (each object exactly once, parent first, '
     'kind-specific events, members-complete after the last member). Plus: handler coverage, the seven visibility predicates on up to '
@@ -77,10 +83,12 @@ claim(
 claim(
     "C11",
     "dominance on the CFG (public frontier), finite-domain abstract evaluation of the dispatch / removal / base / value rules into decision "
-    "tables, alias-dereference exception discipline (exception-flow summaries), registry agreement, def-use of the CLI's loads and exit code",
+    "tables and of Breakage.explain on every breakage class x payload x style, alias-dereference exception discipline (exception-flow "
+    "summaries) in the walk and in the Breakage helpers, registry agreement, def-use of the CLI's loads and exit code",
     "On every path: every breakage of the member walk is dominated by is_public and the walk uses all_members on both sides; the type "
     "dispatch table is total and routes alias/kind-mismatch/same-kind cases as documented; removal, base and value rules equal their "
-    "tables; no alias error can escape the comparison; each breakage kind/style has its class/method; the CLI loads old from `against`, "
+    "tables; no alias error can escape the comparison or the rendering of a breakage reported against an unresolvable re-export (which "
+    "names the alias's own public path); explain() returns for every class, payload (string or expression bases included) and style; each breakage kind/style has its class/method; the CLI loads old from `against`, "
     "new from `base_ref`/tree, prints every breakage and exits 1 exactly when there is one; is_public equals the documented table. "
     "Silence after arbitrary compatible edit scripts is not decided.",
     TB,
@@ -94,7 +102,7 @@ claim(
     'thorough), every default pattern, with and without *args/**kwargs, also with special-looking names (dunder, underscore, self, '
     'args): names, order, kinds, annotation-per-parameter and default-per-parameter equal inspect.signature of the function compiled '
     'from the same text. For nine kinds of definition (async property, async method, property, cached property, method, static / class '
-    'method, overloaded function, property with setter): kind, labels, parameters, overloads and setter are as CPython sees them and '
+    'method, overloaded function, property with setter, annotated property with setter, lambda defaults): kind, labels, parameters, overloads and setter are as CPython sees them and '
     'are the same alone and after any other definition in the class body (no state leaks between definitions). Plus consumer '
     "destructuring order and the inspector's kind bijection.",
     TB + "; inspect.signature / real class bodies executed by the rule are synthesised there (never griffe's or an analysed project's code)",
@@ -108,7 +116,8 @@ claim(
     'Decided: every `from ... import ...` form binds `asname or name` in the current scope (module or class body) to the path CPython '
     "resolves from the enclosing module, only a self-referential alias is skipped; a module's expanded __all__ equals the list "
     'concatenation Python computes on four module graphs x all traversal orders; is_wildcard_exposed and the overwrite rule equal `from '
-    'm import *` semantics on every abstract state; every public attribute of the object classes exists on Alias and reads the right '
+    'm import *` semantics on every abstract state, end to end through expand_wildcards with explicit imports before / after and two '
+    'wildcards in one module; the imports map records self-pointing imports; every public attribute of the object classes exists on Alias and reads the right '
     'target; __all__ extraction table. Not decided: agreement with a real `import *` on generated packages.',
     TB + '; importlib.util.resolve_name is the reference for relative imports',
 )
@@ -133,7 +142,9 @@ claim(
     "coverage; exception-flow check of the getters the full writer evaluates",
     "Every schema obligation that can be read off the writers is decided for all object kinds, aliases, docstrings, decorators, parameters "
     "and docstring sections: anything the schema requires is always written, anything written is declared, every JSON shape a value can "
-    "take is allowed, every section kind the code can emit is listed. Validation of concrete generated dumps is not performed.",
+    "take is allowed, every section kind the code can emit is listed and is written as the schema's string for each section class; "
+    "relative_package_filepath is the path below the top package for every layout the loader builds. Validation of concrete generated "
+    "dumps is not performed.",
     TB + "; docs/schema.json is read at run time; provenance tables (decorator linenos, parameter kinds) are verified structurally",
 )
 claim(
@@ -146,7 +157,9 @@ claim(
     'time, stub alias on an existing name -> untouched, kind mismatch or unresolvable runtime alias -> skipped without raising, same '
     "kind -> that kind's merge; end to end (either order): the runtime module is returned with annotations and return types from the "
     "stubs, runtime docstrings kept and missing ones - the module's own included - taken from the stubs, runtime-only members kept; no "
-    'alias error can escape a merge.',
+    'alias error can escape a merge; a stub definition whose name the stub scope also imports is merged like any other; stubs merged '
+    "into an alias reach its target; _load_package expands the runtime module's wildcard imports (private sibling allowed) after loading "
+    'it and before loading its stubs, for every layout.',
     TB + '',
 )
 claim(
@@ -167,11 +180,14 @@ claim(
 claim(
     "C04",
     "finite-domain abstract evaluation of the scope walk (Object/Function.resolve over a nest of module/class/nested class/method scopes), of "
-    "ExprName.path/canonical_path and of the relative-import arithmetic (against importlib.util.resolve_name), plus explicit-raise and "
-    "handler checks and chain-linking checks on the expression builders",
+    "ExprName.path/canonical_path, of the relative-import arithmetic (against importlib.util.resolve_name), of visit_importfrom and wildcard "
+    "expansion on module layouts, and of the builders on quoted annotations; plus explicit-raise and handler checks and chain-linking "
+    "checks on the expression builders",
     "The resolution tables are total over the abstract scope nest x name classes (own member, import, enclosing class member, enclosing object "
     "name, __init__ parameter, unknown, module name) and over (depth, init?, level, module?) for relative imports; they are compared with "
-    "Python's scoping rule / importlib. Resolution raises only NameResolutionError and the expression side swallows it. Resolution over "
+    "Python's scoping rule / importlib. The names inside a quoted annotation are resolved in the scope it is written in and built afresh "
+    "for each occurrence; an explicit import followed or preceded by wildcard imports binds what CPython binds. Resolution raises only "
+    "NameResolutionError and the expression side swallows it. Resolution over "
     "generated multi-module packages is not decided.",
     TB + "; the reference scoping rule is written in the rule module (class scopes do not nest; functions see their class body)",
 )
@@ -180,8 +196,9 @@ claim(
     "bounded-exhaustive abstract evaluation of griffe's own code (the checker's evaluator interprets the ASTs of the current source on "
     "an enumerated finite domain): Class.mro / c3linear_merge on every hierarchy up to the bound against type()'s MRO; inherited "
     'members; resolved bases; staleness table (derived views re-read after the state changed, with functools memoisation modelled)',
-    "Decided: MRO equal to CPython's (or ValueError where CPython refuses) for every hierarchy of up to 4 classes (5 thorough) with "
-    'every ordered choice of bases; cycles raise; the first provider along the MRO wins for inherited members, own members win; '
+    "Decided: MRO equal to CPython's (or ValueError where CPython refuses) for every hierarchy of up to 4 classes plus the five-class "
+    'three-base ones (all of 5 thorough) with every ordered choice of bases; cycles raise and a class without a computable MRO inherits '
+    'nothing; the first provider along the MRO wins for inherited members, own members win; '
     'resolved_bases keeps every findable base in order; resolved_bases, mro(), inherited_members and all_members reflect a base loaded '
     'later or a member added later (no memoisation). Not decided: hierarchies of more than 5 classes.',
     TB + "; CPython's type() on classes synthesised by the rule is the reference",
@@ -193,7 +210,7 @@ claim(
     'extension run over packages processed one after the other (functools memoisation modelled); call-graph rule for extension loading; '
     'alias analysis of the memoised list',
     'Decided for 1600 definitions (two fields x 11 field forms x decorator options x KW_ONLY positions, single inheritance with and '
-    "without overriding, three-level chains): the synthesised parameters (names, order, kinds, required-ness) equal those of CPython's "
+    "without overriding, three-level chains, a class whose MRO cannot be computed): the synthesised parameters (names, order, kinds, required-ness) equal those of CPython's "
     'generated __init__; a base with InitVar pseudo-fields processed in an earlier package still passes them to a class of a later '
     'package; an __init__ is synthesised only for decorated classes without one; the extension is always loaded; the memoised list is '
     'never mutated. Three inheritance rows are open findings.',
@@ -204,38 +221,44 @@ claim(
     'sibling agreement between the inspector and the visitor (extension-event typestate shared with C01, kind handlers, parameter '
     "conversion); bounded-exhaustive abstract evaluation of griffe's own code (the checker's evaluator interprets the ASTs of the "
     'current source on an enumerated finite domain): kind decision list, child table of generic_inspect, get_parameters vs '
-    'inspect.signature, visit_importfrom vs importlib, inspect_class on synthesised generic hierarchies',
+    'inspect.signature, visit_importfrom and wildcard expansion vs what CPython binds, inspect_class on synthesised generic hierarchies, '
+    'handle_function on synthesised functions',
     "Decided: every ObjectKind has a handler, specific kinds win over general ones, the inspector announces objects with the visitor's "
     "protocol, parameters convert through a bijective kind map, the object's own __doc__ is read, children are inspected / aliased per "
     "the documented table, the static side's parameters and import aliases are what CPython binds (what the inspector observes), and "
-    "inspect_class records the class's own direct bases for plain, generic, parametrised and protocol hierarchies. Equality of the two "
+    "inspect_class records the class's own direct bases for plain, generic, parametrised and protocol hierarchies, handle_function "
+    "records exactly the runtime signature's parameters also when postponed annotations name nothing that exists. Equality of the two "
     'trees on real modules is not decided.',
-    TB + '; classes handed to inspect_class are synthesised in the rule',
+    TB + '; classes and functions handed to the inspector are synthesised in the rule; inspect.signature on them is the reference',
 )
 claim(
     "C14",
     "bounded-exhaustive abstract evaluation of griffe's own code (the checker's evaluator interprets the ASTs of the current source on "
-    'an enumerated finite domain) over a virtual file system: find_package / find_spec / submodules / .pth scan on 81 two-search-path '
-    'layouts x three listing orders, by-path requests, module classification, dotted path parts in the loader; taint of listing calls '
+    'an enumerated finite domain) over a virtual file system (iterdir, os.walk with in-place pruning, directory symlinks, read_text): '
+    'find_package / find_spec / submodules on 81 two-search-path layouts x three listing orders, the .pth scan through '
+    'ModuleFinder(search_paths), by-path requests, module classification, dotted path parts in the loader; taint of listing calls '
     '(order-clean consumers)',
     'Decided: which file provides a package (first search path wins, directory before module file, namespace portions, stubs), that a '
     'package requested by path wins over a same-named one on the search paths, which sub-modules are listed with which dotted parts, '
-    'that files under a directory whose name contains a dot are skipped, that results do not depend on the listing order, how modules '
-    'are classified. Agreement with pkgutil.walk_packages on generated trees is not decided.',
+    'that a directory reachable under two names through symlinks is listed under both, that files under a directory whose name '
+    'contains a dot are skipped, that .pth files add existing directories once in sorted file order, that results do not depend on the '
+    'listing order, how modules are classified. Not decided: agreement with pkgutil.walk_packages on generated trees; where .pth '
+    'additions go relative to later configured search paths.',
     TB + '; the virtual file system stands for the OS; the import-system precedence rule is written in the rule module',
 )
 claim(
     "C13",
     "finite-domain abstract evaluation of the three parsers (their own ASTs interpreted on enumerated well-formed documents rendered from a model of "
-    "sections: every ordered pair of section kinds, four description shapes per item kind, signature-fallback cases, Sphinx field orders), table "
+    "sections: every ordered pair of section kinds, five description shapes per item kind, signature-fallback cases for annotations and defaults, Sphinx field orders), table "
     "agreement (documentation support table vs reader tables; Sphinx prefix order), offset-contract checks backed by the reader summaries of the "
     "bounds analysis, typestate on the CFG (admonition title re-assigned between flushes)",
     "Decided for about 500 generated documents per run (Google and Numpy: all ordered pairs of 14 section kinds, multi-paragraph / role / list "
     "descriptions for each item kind, annotations from the signature vs written ones; Sphinx: type given in-line, before, after or not at all): "
     "the parsed sections, item names, annotations and descriptions equal the model (descriptions up to trailing newlines; Sphinx up to white "
-    "space). Plus the structural rules: supported sections have readers, field prefixes cannot shadow, generator/iterator/tuple slots, block "
+    "space); defaults omitted from the docstring come from the signature in Parameters and Other Parameters under both values of "
+    "warn_unknown_params. Plus the structural rules: supported sections have readers, field prefixes cannot shadow, generator/iterator/tuple slots, block "
     "readers' offset contract, stale admonition title, repeated :raises:. Documents with more than two sections after the summary, parser options "
-    "other than the defaults and default values are NOT enumerated.",
+    "other than those named above are NOT enumerated.",
     TB + "; docs/reference/docstrings.md is read at run time and is the authority for the well-formed syntax the renderer in sa/rules/C13.py emits",
 )
 claim(
@@ -245,7 +268,7 @@ claim(
     "interpreter's ast classes and operator tokens, decision table of the string-annotation rule, field-coverage lint of the builders",
     "Decided for every shape of the corpus (about 2000 expressions up to depth 2, with the parentheses CPython's own unparser requires): the text "
     "produced by _build + Expr.iterate parses back to the same tree as the source, flat iteration yields the pieces of that text with every "
-    "referenced name as a name element; string annotations are parsed exactly when the defining module does not postpone evaluation and never "
+    "referenced name as a name element (nested f-strings and lambda string defaults included); string annotations are parsed exactly when the defining module does not postpone evaluation and never "
     "inside Literal; decorators/defaults/values/bases never parse strings; every builder reads every field of its node. Nesting deeper than two "
     "levels is covered only through the compositional structure of the renderers (each slot passes its own precedence), not enumerated.",
     TB + "; ast.parse / ast.unparse of the running interpreter are the reference for 'same tree' and for the required parentheses",
